@@ -46,6 +46,10 @@ CLAIMED = {
          'Symbolic execution of the real ConsistentHash Add/AddWithReplicas/AddWithWeight/Get/Remove/removeRingNode with the hash function uninterpreted (one fresh symbolic uint64 per distinct input, so every placement and ordering of virtual nodes and probe on the ring is solver-chosen): member-only with collisions allowed; history-independence against a ring rebuilt from the resulting configuration and minimal disruption on add/remove/re-add under pairwise distinct virtual-node hashes.',
          'go/ssa translation, gosym, z3; ring built directly with 1..2 replicas per node (the constructor forces >= 100, identical loop iterations); 2-3 string nodes, 3 operations; lang.Repr = identity on strings; sort.Slice as an oblivious compare-exchange network; relational claims assume collision-free virtual nodes (with collisions the bucket order is history-dependent by design).',
          'SSA symbolic execution + SMT (z3), hash as uninterpreted function, bounded histories'),
+ 'C07': ('DESIGN.md §4 C07',
+         'The real flightGroup.Do/DoEx/createCall/makeCall, lockedGroup.Do/makeCall and ResourceManager.GetResource executed under the engine scheduler for every interleaving (lock / WaitGroup granularity, sleep-set reduced) of 2 (quick) or 3 (thorough) goroutines with keys equal or different, fn returning a value, an error or panicking; logical-clock overlap oracle for shared results, per-key mutual exclusion asserted inside fn, exactly-once own execution for LockedCalls, independence of different keys with one execution blocked forever, create-at-most-once and same-instance for ResourceManager.',
+         'go/ssa translation, gosym (schedules are decisions of the DFS; the data is concrete here, so this is in effect bounded systematic schedule exploration of the real code); sync.Mutex/RWMutex/WaitGroup modelled natively; sequentially consistent interleavings at synchronisation points; waiters of a panicked flight observe zero values (outside the statement).',
+         'SSA interpretation under an exhaustive scheduler with sleep sets (bounded schedule exploration); solver only for data decisions'),
 }
 
 NA = {
